@@ -20,7 +20,7 @@ Apply(e) ==
       [] e.ev = "config"   -> PConfig(e.variant, e.retry, e.burst)
       [] e.ev = "call"     -> PCall(e)
       [] e.ev = "ret"      -> IF e.id \in DOMAIN calls THEN PRet(e)
-                              ELSE bad' = bad \cup {"Harness"} /\ UNCHANGED <<cfg, clk, now, pctx, prt, epoch, inst, calls, snapw, chs, credit, creditR, needEnter, ctxTouch, status, cbseen, boReset, boStop, td>>
+                              ELSE bad' = bad \cup {"Harness"} /\ UNCHANGED <<cfg, clk, now, pctx, prt, epoch, inst, calls, snapw, chs, credit, creditR, needEnter, ctxTouch, status, cbseen, boReset, boStop, rootdead, td>>
       [] e.ev = "ctxsnap"  -> PCtxSnap(e.actor, SeqToSet(e.live))
       [] e.ev = "enter"    -> PEnter(e.inst, e.tag, e.key, e.dead)
       [] e.ev = "leave"    -> PLeave(e.inst, e.out)
@@ -30,10 +30,11 @@ Apply(e) ==
       [] e.ev = "tick"     -> PTick(e.d)
       [] e.ev = "bo"       -> PBo(e.op)
       [] e.ev = "teardown" -> PTeardown
+      [] e.ev = "rootcancel" -> PRootCancel(e.tag)
       [] e.ev = "cstate"   -> PCState(SeqToSet(e.live), SeqToSet(e.active))
       [] e.ev = "quiet"    -> PQuiet(SeqToSet(e.live), SeqToSet(e.active), SeqToSet(e.blk), e.gstate)
       [] e.ev \in {"leak", "note", "end", "spin", "panic"} -> UNCHANGED pvars
-      [] OTHER             -> bad' = bad \cup {"Unexplained"} /\ UNCHANGED <<cfg, clk, now, pctx, prt, epoch, inst, calls, snapw, chs, credit, creditR, needEnter, ctxTouch, status, cbseen, boReset, boStop, td>>
+      [] OTHER             -> bad' = bad \cup {"Unexplained"} /\ UNCHANGED <<cfg, clk, now, pctx, prt, epoch, inst, calls, snapw, chs, credit, creditR, needEnter, ctxTouch, status, cbseen, boReset, boStop, rootdead, td>>
 
 TStep ==
     /\ l <= Len(Trace)
